@@ -87,7 +87,10 @@ class YamlInterface(FileInterface):
 
     def save(self, filename: str, data: dict) -> None:   # pragma: no cover
         """Save config to yaml file."""
+        # use a fresh dumper for every file: after a failed dump (e.g. a value which cannot be represented) the
+        # emitter of a shared instance still points to the closed file and all later dumps would fail
+        dumper = yaml.YAML(typ='safe')
         with open(filename, 'w', encoding='utf8') as output_file:
-            _yaml.default_flow_style = False
-            _yaml.line_break = ''
-            _yaml.dump(data, output_file)
+            dumper.default_flow_style = False
+            dumper.line_break = ''
+            dumper.dump(data, output_file)
